@@ -9,6 +9,7 @@ R4.4 coordinates of the argument / of the construction molecules are untouched: 
 R4.5 result identity: a fresh copy of the target whose every atom position is overwritten unconditionally and
      whose residue numbers are taken from the argument on every path to the return
 R4.6 Molecule.copy allocates fresh coordinate storage (the freshness chain of C18/R18.1)
+R4.3 (path form) on every path of __call__ both tests have passed before the first effectful statement; every failing path ends in raise TypeError (error flags read through)
 """
 from __future__ import annotations
 
